@@ -174,6 +174,9 @@ impl<'a> Tr<'a> {
                         let k = ix.index as usize;
                         Ok(Out { pre: a.pre, term: format!("{}{}", a.term, Self::tuple_proj(ts.len(), k)), ty: ts[k].clone(), diverges: false })
                     }
+                    (syn::Member::Unnamed(ix), Ty::Adt(n, targs)) if n == "CmpWrapper" && targs.len() == 1 && ix.index == 0 => {
+                        Ok(Out { pre: a.pre, term: a.term, ty: targs[0].clone(), diverges: false })
+                    }
                     (m, Ty::Adt(n, targs)) => {
                         let (fname, fty) = self.field_of(n, m, e.span())?;
                         let fty = subst_params(&fty, &self.adt_subst(n, targs));
@@ -385,6 +388,10 @@ impl<'a> Tr<'a> {
         if segs.last().map(|s| s == "PhantomData").unwrap_or(false) {
             return Ok(Out::pure("()".into(), Ty::Unit));
         }
+        // the marker value of the `coerce_to_cmp!` idiom (its type arguments drive rustc's choice of `coerce`)
+        if segs.len() >= 2 && segs[segs.len() - 2] == "IsAConstCmp" && segs[segs.len() - 1] == "NEW" {
+            return Ok(Out::pure("()".into(), Ty::Adt("IsAConstCmp".into(), vec![])));
+        }
         let last = segs.last().cloned().unwrap_or_default();
         if last == "None" && segs.len() >= 2 {
             let t = self.sub.fresh();
@@ -412,7 +419,7 @@ impl<'a> Tr<'a> {
             if tyname == "char" && last == "MAX" {
                 return Ok(Out::pure("(1114111 : Nat)".into(), Ty::Char));
             }
-            if tyname == "Ordering" {
+            if tyname == "Ordering" || tyname == "CmpOrdering" || (tyname == "__" && matches!(last.as_str(), "Less" | "Equal" | "Greater")) {
                 let c = match last.as_str() {
                     "Less" => "Ordering.lt",
                     "Equal" => "Ordering.eq",
@@ -869,6 +876,11 @@ impl<'a> Tr<'a> {
             };
             return self.call_registered(fi, None, c.args.iter().collect(), turbofish, c.span());
         }
+        if last == "CmpWrapper" && c.args.len() == 1 {
+            let o = self.expr(&c.args[0], None)?;
+            let ty = Ty::Adt("CmpWrapper".into(), vec![o.ty.clone()]);
+            return Ok(Out { pre: o.pre, term: o.term, ty, diverges: o.diverges });
+        }
         // tuple struct constructor
         let sname = if last == "Self" { self.cur.self_ty.clone().unwrap_or_default() } else { last.clone() };
         if let Some(lean) = self.reg.structs.get(&sname).cloned() {
@@ -954,6 +966,7 @@ impl<'a> Tr<'a> {
             syn::ReturnType::Type(_, t) => self.conv_ty(t),
         };
         let self_ty = callee.self_ty.clone();
+        let self_spec: Option<Ty> = callee.self_syn.clone().map(|t| self.conv_ty(&t));
         self.cur = saved_cur;
         self.reg.structs.set_hint(&saved_cur.path);
         self.reg.enums.set_hint(&saved_cur.path);
@@ -982,7 +995,7 @@ impl<'a> Tr<'a> {
         terms.extend(const_args);
         let mut arg_iter = args.into_iter();
         if has_self {
-            let st = Ty::Adt(self_ty.clone().unwrap_or_default(), vec![]);
+            let st = self_spec.clone().unwrap_or_else(|| Ty::Adt(self_ty.clone().unwrap_or_default(), vec![]));
             match recv {
                 Some(r) => {
                     self.unify(&r.ty, &st, sp)?;
@@ -1175,8 +1188,31 @@ impl<'a> Tr<'a> {
                 return Ok(Out { pre: recv.pre, term: format!("({} {})", opn, recv.term), ty: recv.ty, diverges: false });
             }
         }
+        // the `coerce_to_cmp!` idiom: `marker.coerce(&x)` wraps a value of a std type in `CmpWrapper` and hands a
+        // reference to a type with its own `const_eq`/`const_cmp` through; `unreference` strips references
+        if matches!(&rt, Ty::Adt(n, _) if n == "IsAConstCmp") {
+            match name.as_str() {
+                "infer_type" => {
+                    let a = self.expr(&m.args[0], None)?;
+                    let mut pre = recv.pre;
+                    pre.extend(a.pre);
+                    return Ok(Out { pre, term: "()".into(), ty: Ty::Unit, diverges: false });
+                }
+                "coerce" | "unreference" => {
+                    let a = self.expr(&m.args[0], None)?;
+                    let mut pre = recv.pre;
+                    pre.extend(a.pre);
+                    let at = self.sub.resolve(&a.ty);
+                    let std_kind = !matches!(&at, Ty::Adt(..) | Ty::Param(_) | Ty::Var(_));
+                    let ty = if name == "coerce" && std_kind { Ty::Adt("CmpWrapper".into(), vec![at]) } else { at };
+                    return Ok(Out { pre, term: a.term, ty, diverges: false });
+                }
+                _ => {}
+            }
+        }
         // user-defined inherent method
-        if let Ty::Adt(adt, _) = &rt {
+        if let Ty::Adt(adt0, adt_args) = &rt {
+            let adt = &if adt0 == "CmpWrapper" && adt_args.len() == 1 { format!("CmpWrapper<{}>", self.spec_key(&adt_args[0])) } else { adt0.clone() };
             // inherent method of the receiver's type
             let cands: Vec<usize> = self
                 .idx
